@@ -198,6 +198,16 @@ def run_property(pid, tier, repo, jobs=12):
     if nat:
         bindir, err = replaybuild.build(repo, bins=["distreplay"])
         for n in nat:
+            if n.get("expect") == "refuted":
+                # pinned known finding reproduced natively (a bounded native search that must keep finding the witness)
+                bd, err2 = replaybuild.build(repo, bins=[n["bin"]])
+                kf = next((k for k in known.get("known", []) if k.get("unit") == n["id"] and k.get("property") == pid), None)
+                if not bd or not kf:
+                    res["infra"].append("pinned native finding %s: %s" % (n["id"], "replay crate does not build" if not bd else "no known-findings entry")); continue
+                p = subprocess.run([os.path.join(bd, n["bin"])] + n["args"], capture_output=True, text=True, timeout=900)
+                if p.returncode == 1: res["known_lines"].append("KNOWN-FINDING: property=%s %s" % (pid, kf["what"]))
+                else: res["known_lines"].append("NOTE: property=%s the pinned finding %s no longer reproduces natively" % (pid, n["id"]))
+                continue
             if not bindir:
                 res["infra"].append("native unit %s: replay crate does not build: %s" % (n["id"], err[-300:])); continue
             p = subprocess.run([os.path.join(bindir, "distreplay")] + n["args"], capture_output=True, text=True, timeout=120)
